@@ -31,7 +31,7 @@ ASSUMPTIONS = [
     "LMDB backend over /verif/shim; SQL = SQLite; HTTP path = ViewEventResource.on_get rendered by falcon's media handler",
 ]
 MIN_NONTRIVIAL = {"quick": 600, "thorough": 1500}
-REQUIRED_COUNTERS = ["frames_checked", "served.stored", "served.live", "served.http", "subids_checked"]
+REQUIRED_COUNTERS = ["frames_checked", "served.stored", "served.live", "served.http", "subids_checked", "rate_limited_commands"]
 SHARD_TIMEOUT = {"quick": 500, "thorough": 3000}
 SCALARS = [(0, 0xD800), (0xE000, 0x110000)]
 
@@ -42,6 +42,7 @@ def plan(tier, seed):
         shards.append({"backend": backend, "mode": "subids", "case_seed": seed})
         shards.append({"backend": backend, "mode": "subids-auth", "case_seed": seed})
         shards.append({"backend": backend, "mode": "tagtypes", "case_seed": seed})
+        shards.append({"backend": backend, "mode": "ratelimited", "case_seed": seed})
         nparts = 8
         stride = 1 if (tier == "thorough" or backend == "sql") else 4
         for p in range(nparts):
@@ -206,6 +207,10 @@ def tagtype_events(key):
         mk("tag-item=" + name, kind=1, created_at=T + i, tags=[["x", val]], content="tt-" + name)
         mk("tag-item2=" + name, kind=1, created_at=T + i, tags=[["e", "a", val], ["t", "v"]], content="tt2-" + name)
         mk("tag-name=" + name, kind=1, created_at=T + i, tags=[[val, "v"]], content="tt3-" + name)
+    # replaceable kinds with the d-tag shapes the stores look at when they work out the address
+    for name, kind, tags in (("bare-d", 30023, [["t", "x"], ["d"]]), ("bare-d-then-d", 39999, [["d"], ["d", "second"]]), ("empty-d", 30000, [["d", ""]]), ("no-d", 30001, [["t", "x"]]),
+                             ("d-extra-items", 30002, [["d", "x", "y", 5]]), ("kind0-tags", 0, [["d"], ["p"]]), ("kind3-bare-p", 3, [["p"], ["p", "a"]]), ("kind10002", 10002, [["r"], ["d"]])):
+        mk("address=" + name, kind=kind, created_at=T + 3, tags=tags, content="tt-addr-" + name)
     mk("empty-tag", kind=1, created_at=T, tags=[[]], content="tt-empty-tag")
     mk("empty-tags", kind=1, created_at=T, tags=[], content="tt-empty-tags")
     mk("bare-tags", kind=1, created_at=T, tags=[["d"], ["e"], [""]], content="tt-bare")
@@ -354,11 +359,64 @@ async def run_events(backend, cases, counters, mode):
     return viols, nontrivial, samples
 
 
+async def run_rate_limited(backend, counters):
+    """frames the relay writes when it REFUSES a command for rate reasons (it has not looked at the
+    command's content yet, so ids and subscription ids are whatever the client sent)"""
+    class Frozen:
+        def __call__(self):
+            return 1000.0
+
+    rig = R.Rig(backend=backend, config={"analysis_delay": 0, "rate_limits": {"ip": {"EVENT": "1/h", "REQ": "1/h", "CLOSE": "1/h", "AUTH": "1/h"}}})
+    rig.load_config()
+    from nostr_relay import rate_limiter  # only after the configuration (and the tree under test) are set up
+
+    rate_limiter.perf_counter = Frozen()
+    await rig.start()
+    viols, nontrivial, samples = [], [], []
+    try:
+        lim = rate_limiter.get_rate_limiter(rig.Config)
+        conn = rig.connect("rl", rate_limiter=lim)
+        key = ref.key_from_seed("c04-rl")
+        good = ref.make_event(key, kind=1, created_at=gen.T0, content="first")
+        await conn.cmd(["EVENT", good])
+        await conn.cmd(["REQ", "first", {"kinds": [1]}])
+        await conn.cmd(["CLOSE", "first"])
+        hostile = ['ab"cd', "x\\", 'x",true,"",false,"', "\n", "\x00", "\u2028", "é", "a" * 64 + '"', "", "\x7f", "\\u0041", '"]', "\t"]
+        for hid in hostile + [5, None, {"a": 1}, [], True]:
+            if conn.exited:
+                conn = rig.connect("rl2", rate_limiter=lim)
+                await conn.cmd(["EVENT", ref.make_event(key, kind=1, created_at=gen.T0 + 1, content="again %r" % (hid,))])
+            ev = dict(good, id=hid)
+            for msg in (["EVENT", ev], ["REQ", hid, {"kinds": [1]}], ["CLOSE", hid]):
+                if conn.exited:
+                    break
+                n0 = rig.rec.n
+                await conn.cmd(json.dumps(msg, ensure_ascii=False))
+                await rig.quiesce()
+                counters["rate_limited_commands"] = counters.get("rate_limited_commands", 0) + 1
+                replay = {"backend": backend, "mode": "ratelimited", "frame": json.dumps(msg)}
+                check_frames(conn, n0, None, counters, viols, replay, backend)
+                nontrivial.append(h([backend, "ratelimited", msg[0], repr(hid)]))
+                for n, text in conn.frames:
+                    if n > n0:
+                        try:
+                            f = strict_loads(text)
+                        except Exception:
+                            continue
+                        if isinstance(f, list) and f and f[0] == "OK" and isinstance(hid, str) and (len(f) != 4 or f[1] != hid or f[2] is not False):
+                            viols.append({"key": "frame-shape/OK-rate-limited", "msg": "[%s] refusal of a rate-limited EVENT with id %r was written as %r" % (backend, hid, text[:200]), "replay": replay})
+    finally:
+        await rig.close()
+    return viols, nontrivial, samples
+
+
 def run_shard(spec):
     counters = {}
     backend, mode = spec["backend"], spec["mode"]
     key = ref.key_from_seed("c04")
-    if mode.startswith("subids"):
+    if mode == "ratelimited":
+        viols, nontrivial, samples = R.run(run_rate_limited, backend, counters)
+    elif mode.startswith("subids"):
         viols, nontrivial, samples = R.run(run_subids, backend, mode.endswith("auth"), counters)
     elif mode == "unicode":
         cases = unicode_events(key, spec["part"], spec["parts"], spec["stride"])
@@ -383,7 +441,9 @@ def run_shard(spec):
 
 def replay(rp, spec):
     counters = {}
-    if rp["mode"].startswith("subids"):
+    if rp["mode"] == "ratelimited":
+        viols, nt, sm = R.run(run_rate_limited, rp["backend"], counters)
+    elif rp["mode"].startswith("subids"):
         global subid_cases
         orig = subid_cases
         subid_cases = lambda: [rp["subid"]]  # noqa: E731
